@@ -351,7 +351,7 @@ def run_rng(ctx, i, rng):
         ctx.check(exact(outs_r[0], outs_r[1]) and exact(outs_r[1], outs_r[2]) and exact(outs_r[0], fresh_r),
                   'rng:jit_repeated_invocation_not_reproducible', lambda: dict(case=desc, repeat=rep))
       # different rng seeds give different outputs (draws are really taken)
-      rngs2 = dict(rngs, noise=jax.random.key(999))
+      rngs2 = dict(rngs, noise=jax.random.key(999), other=jax.random.key(998))  # 'other' is drawn after the dropout: it always reaches the output
       ctx.check(not exact(inst.apply(vp, x, rngs=rngs2), outs[0]), 'rng:jit_ignores_rngs', lambda: dict(case=desc))
 
 
